@@ -178,6 +178,19 @@ theorem processEv_skeeps (n : Nat) (st : St) (e : Ev) (h : Inv st) : SKeeps st (
       | some a =>
         exact skeeps_modify _ _ a _ (fun rs d hd => ⟨d, addSoft_keeps _ _ _ hd, rfl⟩) rfl rfl
 
+/-- a soft constraint visited under guards, while a rand set is active, is recorded with that set at
+    once, under the priority of the visit (and `foldl_processEv_skeeps` / `buildFrom_skeeps` keep it) -/
+theorem guarded_soft_recorded (n : Nat) (st : St) (g : Expr) (gs : List Expr) (e : Expr) (a : Nat)
+    (h : Inv st) (ha : st.active = some a) :
+    SRec (processEv n st (.soft (g :: gs) e)) (st.nsoft + (n + st.nsoft)) := by
+  obtain ⟨ars, hars⟩ := h.act a ha
+  unfold processEv
+  simp only [ha]
+  unfold SRec
+  left
+  obtain ⟨d, hd, he⟩ := addSoft_has ars ⟨st.nsoft + (n + st.nsoft), g :: gs, e⟩
+  exact ⟨a, addSoft ars ⟨st.nsoft + (n + st.nsoft), g :: gs, e⟩, (live_modify_same _ _ _ _).mpr ⟨ars, hars, rfl⟩, d, hd, he⟩
+
 theorem foldl_processEv_skeeps (n : Nat) : ∀ (evs : List Ev) (st : St) (seen : List Nat),
     Inv st → Cur st seen → SKeeps st (evs.foldl (processEv n) st) := by
   intro evs
